@@ -4,6 +4,14 @@ import json, os
 V = os.path.dirname(os.path.dirname(os.path.abspath(__file__)))
 table = json.load(open(os.path.join(V, "checks.json")))
 meta = json.load(open(os.path.join(V, "tools", "manifest_meta.json")))
+import glob
+for p in sorted(glob.glob(os.path.join(V, "sim", "*", "checks.json"))):
+    table["checks"].update(json.load(open(p))["checks"])
+for p in sorted(glob.glob(os.path.join(V, "sim", "*", "manifest_meta.json"))):
+    mm = json.load(open(p))
+    for pid, v in mm.get("claimed", {}).items():
+        meta["claimed"][pid] = v
+        meta["na"].pop(pid, None)
 props = [json.loads(l) for l in open(os.path.join(V, "properties.jsonl"))]
 checks, na = [], []
 engines = {}
@@ -26,6 +34,9 @@ for p in props:
         })
     else:
         na.append({"property_id": pid, "reason": meta["na"][pid]})
+for pid in list(table["checks"]):
+    if pid not in meta["claimed"]:
+        raise SystemExit("check %s has no manifest text" % pid)
 man = {
     "version": 1,
     "setup_cmd": "bin/setup",
